@@ -82,7 +82,7 @@ def stub_case(rng):
     fit = np.round(amp * (d / max(d.max(), 1)) ** rng.choice([1.0, 1.5, 2.0]))
     noise = np.array([rng.choice([0, 0, 1, -1, 2, -3]) for _ in range(n)], dtype=float)
     y = fit + noise * rng.choice([0, 1, 5])
-    kind = rng.choice(["plain", "spikes", "tilt", "bump", "decreasing", "flat"])
+    kind = rng.choice(["plain", "spikes", "tilt", "bump", "decreasing", "flat", "drop-at-end"])
     if kind == "spikes":
         for _ in range(rng.randint(1, 8)):
             y[rng.randrange(n)] += rng.choice([-1, 1]) * rng.choice([30, 200])
@@ -93,6 +93,11 @@ def stub_case(rng):
         y = y + np.round(40 * np.exp(-0.5 * ((np.arange(n) - c0) / 6.0) ** 2))
     elif kind == "decreasing":
         y = np.round(amp - amp * np.arange(n) / n) + noise
+    elif kind == "drop-at-end":
+        # break-through / clipped sample: the approach does not end at its maximal force
+        y[-1] = rng.choice([0.0, -5.0, -40.0])
+        if rng.random() < 0.5:
+            y[-2] = 0.0
     elif kind == "flat":
         # constant positive force (a force that never exceeds zero is outside the property)
         y = np.zeros(n) + 5.0
@@ -417,6 +422,9 @@ def values_tie(ctx, count):
             ctx.violation(f"feature-raises:{name}", f"{name} raises {v} on a fitted curve ({case['kind']}, "
                           f"{case['n']} points)", {"input": case})
             continue
+        # the property's value clauses on this dataset (the approach force reaches positive values)
+        if case["kind"] != "flat" and max(case["y"]) > 0:
+            judge_values(ctx, case, [name], [v], True, {"input": case})
         if o == "nan":
             # the model's NaN also stands for a division by zero (inf) - flagged by the oracle below
             if not (np.isnan(v) or np.isinf(v)):
